@@ -24,7 +24,7 @@ func checkC18(r *Run) {
 	if a.lost(r1) {
 		return
 	}
-	if a.WithReqCtx == nil {
+	if a.WithReqCtx == nil && len(c.boundingClosures(a)) == 0 {
 		r1.Lost("(*RetryClient).withRequestContext", "wrapper that bounds retry handles not found")
 	}
 	c.ruleFailedKept(r3, r3)
@@ -69,6 +69,12 @@ func checkC18(r *Run) {
 			if !isReq && f.Parent() != nil && top == a.WithReqCtx && !k.Call.IsInvoke() && callee == nil {
 				// invocation of the wrapped retry handle (a free variable of type retryFn)
 				if typeName(k.Call.Value.Type()) == "retryFn" || len(k.Call.Args) == 2 {
+					isHandleInvoke = true
+					name = "retry handle"
+				}
+			}
+			if !isReq && !isHandleInvoke {
+				if bc := c.boundingClosure(a, f); bc != nil && bc.Invoke == k {
 					isHandleInvoke = true
 					name = "retry handle"
 				}
